@@ -9,7 +9,7 @@
    ghost log with one entry (dependent tree node, requirement, target tree node, fresh?) per
    edge of the graph. *)
 From DepsDev Require Import Lib.Base Resolve.Npm Resolve.Npm_lemmas Resolve.Npm_inv Resolve.Npm_loop
-  Resolve.Npm_proofs Resolve.Npm_tree Resolve.Npm_lookup Resolve.Npm_nopanic Resolve.Npm_witness_proofs Extract.CasesNpm.
+  Resolve.Npm_proofs Resolve.Npm_tree Resolve.Npm_lookup Resolve.Npm_nopanic Resolve.Npm_witness_proofs Resolve.Npm_kept_proofs Resolve.Npm_fresh_proofs Extract.CasesNpm.
 
 Section C06.
   Variable c_version : vkey -> res version.
@@ -40,6 +40,29 @@ Section C06.
       forall d, In d (regular_imports c_matching reqs) -> handled (r_graph r) k d.
   Proof. exact (complete c_version c_requirements c_matching sem_match). Qed.
 
+  (* 2a. What "kept by regularImports" means, against the property text ("every non-dev,
+     non-peer requirement"): a requirement of the version is kept iff it is not dev, not
+     peer-scoped, is optional or has no optional sibling on the same package, does not point to
+     the content of a bundle, and is not bundle-scoped next to a plain requirement on the same
+     package.  These exceptions are the resolver's; they are part of the statement. *)
+  Theorem C06_requirements_kept : forall reqs d,
+    In d (regular_imports c_matching reqs) <-> kept c_matching reqs d.
+  Proof. exact (regular_imports_spec c_matching). Qed.
+
+  (* 2b. ... hence: every requirement of every graph node that is kept in that sense has an
+     edge or a node error. *)
+  Theorem C06_complete_by_text : forall fuel root r, resolve fuel root = Ok r ->
+    forall k key, nth_error (g_nodes (r_graph r)) k = Some key ->
+    exists key' reqs,
+      (k <> 0%nat -> key' = key) /\ (k = 0%nat -> exists v, c_version root = Ok v /\ key' = v_key v) /\
+      c_requirements key' = Ok reqs /\
+      forall d, kept c_matching reqs d -> handled (r_graph r) k d.
+  Proof.
+    intros fuel root r H k key Hk.
+    destruct (complete c_version c_requirements c_matching sem_match fuel root r H k key Hk) as [key' [reqs [H1 [H2 [H3 H4]]]]].
+    exists key', reqs. repeat split; auto. intros d Hd. apply H4. apply regular_imports_spec. exact Hd.
+  Qed.
+
   (* 3. Every node is reachable from the root (node 0) along edges. *)
   Theorem C06_reachable : forall fuel root r, resolve fuel root = Ok r ->
     forall k, (k < length (g_nodes (r_graph r)))%nat -> reach (r_graph r) k.
@@ -55,6 +78,21 @@ Section C06.
       c_matching (r_key (l_req l)) = Ok dvers /\ last_opt dvers = Some wp /\
       pick_rule (concrete_for_latest c_matching wp) dvers wp (t_ver t).
   Proof. exact (pick c_version c_requirements c_matching sem_match). Qed.
+
+  (* 4a. Which installs are fresh is read off the install tree, not off a label: every
+     installed copy (a tree node that has a parent and is not a bundled copy) is the target of
+     a log entry marked fresh, so C06_pick applies to it; and the edge of every fresh entry
+     carries the Selector attribute. *)
+  Theorem C06_fresh_from_tree : forall fuel root r, resolve fuel root = Ok r ->
+    Forall2 sel_pair (r_log r) (g_edges (r_graph r)) /\
+    forall i n, nth_error (r_tree r) i = Some n -> installed n ->
+      exists l, In l (r_log r) /\ l_to l = i /\ l_fresh l = true.
+  Proof. exact (selected c_version c_requirements c_matching sem_match). Qed.
+
+  Theorem C06_selector_edge : forall fuel root r, resolve fuel root = Ok r ->
+    forall i n, nth_error (r_tree r) i = Some n -> installed n ->
+      exists e d, In e (g_edges (r_graph r)) /\ e_to e = t_id n /\ e_req e = r_ver d /\ e_type e = selector (r_type d).
+  Proof. exact (selector_edge c_version c_requirements c_matching sem_match). Qed.
 
   (* ... which is the version tagged latest whenever the client lists it last among the
      matching versions (the in-memory client does, unless latest is a prerelease next to
@@ -79,6 +117,16 @@ Section C06.
       t_bundled n = None /\ NoDup (map fst (t_children n) ++ map fst (t_alias n)).
   Proof.
     intro ND. exact (unique_name c_version c_requirements c_matching sem_match (no_derived_get_bundled _ ND)).
+  Qed.
+
+  (* 5a. ... and a package sits in its directory under its own name, below the node that is
+     its parent (clients without derived packages; aliases allowed, they live in t_alias). *)
+  Theorem C06_child_key : no_derived c_matching ->
+    forall fuel root r, resolve fuel root = Ok r ->
+    forall i n k c, nth_error (r_tree r) i = Some n -> assoc k (t_children n) = Some c ->
+      exists cn, nth_error (r_tree r) c = Some cn /\ t_pkg cn = k /\ t_parent cn = Some i.
+  Proof.
+    intro ND. exact (child_keys c_version c_requirements c_matching sem_match (no_derived_get_bundled _ ND)).
   Qed.
 
   (* 6. Node's lookup (walk up from the dependent until a directory holds an entry of the
@@ -112,6 +160,11 @@ Print Assumptions C06_no_panic.
 Print Assumptions C06_unique_name.
 Print Assumptions C06_lookup_partial.
 Print Assumptions C06_log_edges.
+Print Assumptions C06_requirements_kept.
+Print Assumptions C06_complete_by_text.
+Print Assumptions C06_child_key.
+Print Assumptions C06_fresh_from_tree.
+Print Assumptions C06_selector_edge.
 
 (* The lookup clause is false when aliases are allowed (F-C06-1): a client without derived
    packages, with name-faithful MatchingVersions answers and distinct requirement names, on
@@ -123,6 +176,37 @@ Theorem C06_lookup_refuted_alias :
     exists l, In l (r_log r) /\ node_lookup (r_tree r) (l_from l) (lname (l_req l)) <> Some (l_to l).
 Proof. exact lookup_refuted_alias. Qed.
 Print Assumptions C06_lookup_refuted_alias.
+
+(* Each remaining hypothesis of C06_lookup_partial is needed: with two requirements of one
+   version under one name (all other hypotheses hold) the copy installed for the second shadows
+   the one the first resolved to ... *)
+Theorem C06_lookup_refuted_dup_name :
+  exists t r, t_dup_name = Some t /\ no_derived_tbl (tb_m t) = true /\ no_alias_tbl (tb_r t) = true /\
+    names_tbl (tb_m t) = true /\ distinct_tbl (tb_m t) (tb_r t) = false /\ run t = Ok r /\
+    exists l, In l (r_log r) /\ node_lookup (r_tree r) (l_from l) (lname (l_req l)) <> Some (l_to l).
+Proof. exact lookup_refuted_dup_name. Qed.
+Print Assumptions C06_lookup_refuted_dup_name.
+
+(* ... and with a client that answers a requirement on one package with a version of another
+   (all other hypotheses hold) the copy is filed under the other name. *)
+Theorem C06_lookup_refuted_foreign_name :
+  exists t r, t_foreign_name = Some t /\ no_derived_tbl (tb_m t) = true /\ no_alias_tbl (tb_r t) = true /\
+    names_tbl (tb_m t) = false /\ distinct_tbl (tb_m t) (tb_r t) = true /\ run t = Ok r /\
+    exists l, In l (r_log r) /\ node_lookup (r_tree r) (l_from l) (lname (l_req l)) <> Some (l_to l).
+Proof. exact lookup_refuted_foreign_name. Qed.
+Print Assumptions C06_lookup_refuted_foreign_name.
+
+(* The hypothesis of C06_unique_name is needed: with derived packages one directory can hold a
+   child and an alias of the same name (two bundled copies, one installed under the name of the
+   package the other is derived from).  The property text leaves these trees out. *)
+Theorem C06_unique_name_refuted_derived :
+  exists t r n, t_derived_clash = Some t /\ no_derived_tbl (tb_m t) = false /\ run t = Ok r /\
+    In n (r_tree r) /\ ~ NoDup (map fst (t_children n) ++ map fst (t_alias n)).
+Proof.
+  destruct unique_name_refuted_derived as [t [r [n [H1 [H2 [H3 [H4 H5]]]]]]].
+  exists t, r, n. repeat split; auto. apply clash_not_nodup. exact H5.
+Qed.
+Print Assumptions C06_unique_name_refuted_derived.
 
 (* "The version tagged latest when that satisfies the requirement" is false without the
    side condition of C06_pick_latest_partial (F-C06-2): latest is in the matching list, is the
@@ -145,6 +229,13 @@ Example C06_nonvacuous :
     length (g_errors (r_graph r)) = 1%nat /\ length (filter l_fresh (r_log r)) = 4%nat /\ bad_lookups r = [] /\
     existsb (fun n => match t_parent n with Some (S _) => true | _ => false end) (r_tree r) = true.
 Proof. exact example_ok. Qed.
+
+(* C06_requirements_kept is not vacuous: the root of the example has three requirements, the
+   dev one is dropped. *)
+Example C06_kept_example :
+  exists t reqs, t_example = Some t /\ tbl_lookup (tb_r t) (tb_root t) = Ok reqs /\ length reqs = 3%nat /\
+    length (regular_imports (tbl_lookup (tb_m t)) reqs) = 2%nat.
+Proof. exact example_kept. Qed.
 
 (* the finite checks above give the hypotheses in the form the theorems take them *)
 Example C06_hypotheses_from_tables : forall t,
